@@ -330,8 +330,23 @@ def body_basic_auth(I, X, nu=1, npw=2):
     return ok, {"header": hdr}
 
 
+class ZeroTz(_dtmod.tzinfo):
+    """a zero-offset tzinfo that is not datetime.timezone (as zoneinfo / pytz / dateutil UTC are)"""
+
+    def utcoffset(self, dt):
+        return _dtmod.timedelta(0)
+
+    def dst(self, dt):
+        return None
+
+    def tzname(self, dt):
+        return "Z"
+
+
 def _tz(offset):
     """'+0530' -> a real fixed-offset tzinfo"""
+    if offset == "custom-zero":
+        return ZeroTz(), 0
     sec = (int(offset[1:3]) * 3600 + int(offset[3:5]) * 60) * (1 if offset[0] == "+" else -1)
     return _dtmod.timezone(_dtmod.timedelta(seconds=sec)), sec
 
@@ -351,7 +366,8 @@ def body_http_date(I, X, aware=True, month=1, offset=None, via="http_date"):
         # a datetime in another fixed offset: the header carries the same instant in GMT
         tz, off = _tz(offset)
         # converting the first / last day of the calendar to UTC overflows datetime itself
-        X.assume(pand(y >= 1001, y <= 9998))
+        if off:
+            X.assume(pand(y >= 1001, y <= 9998))
     if X.symbolic:
         dt = SymDatetime((y, m, d, hh, mi, ss), tz)
     else:
@@ -407,8 +423,8 @@ def obligations(tier, seed):
     quick = tier == "quick"
     # datetimes in another fixed offset (the header carries the same instant in GMT), and dates
     # through IfRange(date=...).to_header() -> parse_if_range_header
-    for month, offset in ([(2, "+0530"), (12, "-1100"), (1, "+1400")] if quick else
-                          [(mo, of) for mo in (1, 2, 3, 6, 12) for of in ("+0530", "-1100", "+1400", "-0001", "+0000", "-2359")]):
+    for month, offset in ([(2, "+0530"), (12, "-1100"), (1, "+1400"), (3, "custom-zero")] if quick else
+                          [(mo, of) for mo in (1, 2, 3, 6, 12) for of in ("+0530", "-1100", "+1400", "-0001", "+0000", "-2359", "custom-zero")]):
         out.append({"name": f"http_date[offset={offset},month={month}]", "body": "body_http_date", "params": {"aware": True, "month": month, "offset": offset},
                     "opts": {"budget_s": 900, "ctx": {"bv_ints": True, "max_digits": 6}}})
     for month, offset in ([(2, None), (12, "+0130")] if quick else [(mo, of) for mo in (1, 2, 7, 12) for of in (None, "+0130", "-0800")]):
